@@ -441,3 +441,30 @@ Proof.
   intros Hs bs. rewrite receive_clean by exact Hs. cbn zeta. fold bs.
   rewrite map_length, chunks16_length. unfold chunks16. rewrite map_map. reflexivity.
 Qed.
+
+(** * What [no_stall] means *)
+Lemma repeat_snoc {A} (x : A) k : repeat x (S k) = repeat x k ++ [x].
+Proof. induction k as [|k IH]; [reflexivity|]. cbn [repeat app] in *. rewrite <- IH. reflexivity. Qed.
+
+(** declarative reading of [no_stall]: the list of reads contains no 101 consecutive empty reads *)
+Lemma no_stall_declarative_gen chunks : forall k : nat,
+  (forall pre post, repeat [] k ++ chunks <> pre ++ repeat [] 101 ++ post) ->
+  no_stall (Z.of_nat k) chunks.
+Proof.
+  induction chunks as [|c cs IH]; intros k H; cbn [no_stall]; [exact I|].
+  destruct c as [|b c].
+  - split.
+    + destruct (Nat.lt_ge_cases k 100) as [|Hge]; [lia|exfalso].
+      apply (H (repeat [] (k - 100)) cs).
+      change ([] :: cs) with ([[]] ++ cs). rewrite app_assoc, <- repeat_snoc.
+      rewrite app_assoc, <- repeat_app. f_equal. f_equal. lia.
+    + replace (Z.of_nat k + 1) with (Z.of_nat (S k)) by lia. apply IH.
+      intros pre post E. apply (H pre post). rewrite <- E.
+      rewrite repeat_snoc, <- app_assoc. reflexivity.
+  - apply (IH 0%nat). intros pre post E. cbn [repeat app] in E.
+    apply (H (repeat [] k ++ (b :: c) :: pre) post). rewrite E, <- app_assoc. reflexivity.
+Qed.
+
+Theorem no_stall_declarative chunks :
+  (forall pre post, chunks <> pre ++ repeat [] 101 ++ post) -> no_stall 0 chunks.
+Proof. intros H. apply (no_stall_declarative_gen chunks 0). exact H. Qed.
